@@ -50,13 +50,20 @@ structure Macro where
   body : Stmts
 deriving DecidableEq
 
-/-- one source file. `imports`: per import statement the key of the file it resolves to (`none` = not found);
-`routines`: bodies in source order, `none` = `alias previous`. `isSsbScript`: the `//?: is-ssb-script` attribute
-is set, `compile` hands the text to the SsbScript compiler and returns. -/
+/-- one routine. `id`: the written id of `def ID …`, `none` for `coro NAME` (which takes the previous id + 1);
+`fixedTarget`: `def ID for actor 1.5` (a decimal literal as target); `body`: `none` = `alias previous`. -/
+structure Routine where
+  id : Option Int := none
+  fixedTarget : Bool := false
+  body : Option Stmts := none
+
+/-- one source file. `imports`: per import statement the key of the FILE it resolves to (`none` = not found, also
+when the path names a directory); `routines` in source order. `isSsbScript`: the `//?: is-ssb-script` attribute is
+set, `compile` hands the text to the SsbScript compiler (the compiled file only; an imported file is rejected). -/
 structure File where
   imports : List (Option String) := []
   macros : List Macro := []
-  routines : List (Option Stmts) := []
+  routines : List Routine := []
   isSsbScript : Bool := false
 
 /-- all files an import can reach, by key (absolute real path in the implementation) -/
@@ -76,9 +83,6 @@ def documented : List ErrKind := [.ssbCompilerError, .valueError]
 structure Cfg where
   /-- name of the performance progress list variable (compiler constructor argument) -/
   perfVar : String := "$PERFORMANCE_PROGRESS_LIST"
-  /-- `HasRoutinesVisitor().visit(parser.start())` parses the already consumed token stream a second time and
-  therefore visits an empty tree (pinned code: `true`). `false` = the visitor sees the file's tree. -/
-  reparseEmpty : Bool := true
 
 def Stmts.ofList : List Stmt → Stmts
   | [] => .nil
